@@ -81,22 +81,68 @@ Proof.
     apply after_in in I. destruct I as [I _]. rewrite forallb_forall in RO. apply RO. exact I.
 Qed.
 
-(* scenario #3 (and likewise #2): the gap fill in front of a resent message carries the CURRENT
-   next_send as its MsgSeqNum, whatever the gap is *)
-Theorem gapfill_seq_general : forall s seqnum m k raw rest,
+(* EVERY gap fill sent from inside the replay (scenarios #2/#3, since /repo 930506b) is exact, for all stores
+   and ranges: the oracle's parser reads MsgSeqNum = a, NewSeqNo = k with a the first number of a gap
+   (Begin, or the number after a stored record), k the number of the next stored record, and nothing stored
+   in [a, k).  The plan = these items in order, then the final gap fill. *)
+Theorem gapfill_exact : forall s seqnum m,
   schema_ok sc = true -> nosoh (s_snd s) = true -> nosoh (s_tgt s) = true ->
   ready sc decode now s seqnum m -> ready_store decode s ->
   range_bad (req_begin m) (req_end m) = false ->
-  after (req_begin m - 1) (finish_of (st s) (req_end m)) (st s) = (k, raw) :: rest -> req_begin m < k ->
-  exists s' w evs,
-    handle_resend_request sc decode now seqnum m s = (inl true, s', EOut w :: evs) /\
-    parse_out w = IGap (s_next_send s) k.
+  exists s' loop_items final,
+    handle_resend_request sc decode now seqnum m s =
+      (inl true, s', out sc now decode s (loop_items ++ [final])) /\
+    forall a k, In (PGap a k) loop_items ->
+      parse_out (wire sc decode now s (PGap a k)) = IGap a k /\
+      req_begin m <= a /\ a < k /\
+      (exists raw, In (k, raw) (st s) /\ k <= finish_of (st s) (req_end m)) /\
+      (forall k' raw', In (k', raw') (st s) -> ~ (a <= k' < k)) /\
+      (a = req_begin m \/ exists raw', In (a - 1, raw') (st s)).
 Proof.
-  intros s seqnum m k raw rest SOK N1 N2 RD RS RB A L.
+  intros s seqnum m SOK N1 N2 RD RS RB.
   destruct (sok_parts sc SOK) as (W & S34 & S43 & S52 & S122 & S49 & S56 & ADM & B36 & B123).
   destruct (replay_plan s seqnum m W ADM RD RS RB) as (s' & E & _).
-  destruct (plan_starts_with_gap (st s) (s_next_send s) (req_begin m) (req_end m) k raw rest A L) as (items & P).
-  rewrite P in E. unfold out in E. cbn [map] in E.
+  destruct RS as (ASA & ATT & WF & DEC & LEN).
+  assert (B0 : 0 < req_begin m).
+  { unfold range_bad in RB. apply orb_false_iff in RB. destruct RB as [_ RB]. apply N.eqb_neq in RB. lia. }
+  set (b := req_begin m) in *. set (fin := finish_of (st s) (req_end m)) in *.
+  set (recs := after (b - 1) fin (st s)).
+  assert (SR : sorted_from (b - 1) recs = true).
+  { pose proof (after_sorted (st s) 0 (b - 1) fin WF) as S. replace (N.max 0 (b - 1)) with (b - 1) in S by lia. exact S. }
+  unfold plan in E. fold fin in E. fold recs in E.
+  pose proof (loop_gaps_exact recs b 0) as LG.
+  destruct (plan_loop b 0 recs) as [items last]. destruct (plan_final (s_next_send s) b last) as [g nseq]. cbn [fst] in *.
+  exists s', items, g. split; [exact E|].
+  intros a k I. destruct (LG a k B0 SR I) as (A1 & A2 & (raw & A3) & A4 & A5).
+  change (from_of b 0) with b in *.
+  assert (INR : forall k0 raw0, In (k0, raw0) recs <-> In (k0, raw0) (st s) /\ b <= k0 <= fin).
+  { intros. unfold recs. rewrite after_in. split; intros (P & Q); (split; [exact P|lia]). }
+  split.
+  { rewrite (wire_gap_parse sc decode now SOK s) by assumption. unfold gap_seq.
+    replace (a =? 0) with false by (symmetry; apply N.eqb_neq; lia). reflexivity. }
+  split; [exact A1|]. split; [exact A2|]. split.
+  { exists raw. apply INR in A3. destruct A3 as (P & Q & R). split; [exact P|exact R]. }
+  split.
+  { intros k' raw' J Q. apply INR in A3. destruct A3 as (P3 & Q3 & R3).
+    apply (A4 k' raw'); [apply INR; split; [exact J|lia]|exact Q]. }
+  destruct A5 as [A5|(raw' & A5)]; [left; exact A5|right; exists raw'; apply INR in A5; tauto].
+Qed.
+
+(* F22 as it was before 930506b, on Session.retrans_record_orig: the gap fill in front of a record carries the
+   CURRENT next_send as MsgSeqNum whatever the gap is -- for every state, not the first number of the gap *)
+Theorem gapfill_seq_orig_refuted : forall s b k raw,
+  schema_ok sc = true -> nosoh (s_snd s) = true -> nosoh (s_tgt s) = true ->
+  s_closed s = false -> s_batch s = [] -> pr_asa (s_par s) = false -> p_attached (s_per s) = true ->
+  resendable decode (k, raw) = true -> b < k ->
+  exists s' w evs,
+    retrans_record_orig sc decode now b 0 k raw s = (inl true, s', EOut w :: evs) /\
+    parse_out w = IGap (s_next_send s) k.
+Proof.
+  intros s b k raw SOK N1 N2 CL BA ASA ATT RK L.
+  destruct (sok_parts sc SOK) as (W & S34 & S43 & S52 & S122 & S49 & S56 & ADM & B36 & B123).
+  destruct (retrans_record_orig_plan sc now decode W ADM s b 0 k raw ltac:(repeat split; assumption) RK) as (s' & E & _).
+  unfold gap_before_orig in E. cbn [N.eqb negb] in E. replace (b <? k) with true in E by (symmetry; apply N.ltb_lt; exact L).
+  unfold out in E. cbn [app map] in E.
   eexists. eexists. eexists. split; [exact E|].
   rewrite (wire_gap_parse sc decode now SOK s) by assumption.
   unfold gap_seq. destruct (s_next_send s =? 0) eqn:Z; [apply N.eqb_eq in Z; rewrite Z|]; reflexivity.
